@@ -158,7 +158,6 @@ class StreamingResponse(Response, abc.ABC, Generic[_ContentType]):
     ) -> None:
         super().__init__(status_code, headers)
         self.iterable = iterable
-        self._client_closed = False
 
     @abc.abstractmethod
     def render_stream(self) -> Generator[bytes, None, None]:
